@@ -127,8 +127,12 @@ class FakeTransport(asyncio.Transport):
     def close(self) -> None:
         if self._closing:
             return
-        self._closing = True
         c = self.conn
+        if c.abortive_close and self.buffer:
+            # SO_LINGER(on, 0 s): close() throws away what has not been sent yet and resets the connection
+            c.aborted_bytes += len(self.buffer)
+            self.buffer.clear()
+        self._closing = True
         c.client_closed_at = c.loop.time()
         if self.buffer:
             return  # like asyncio: buffered data is flushed first, connection_lost follows (see _flush)
@@ -147,6 +151,8 @@ class FakeTransport(asyncio.Transport):
         self.close()
 
     def get_extra_info(self, name: str, default: Any = None) -> Any:
+        if name == "socket":
+            return _FakeSock(self.conn)
         if name == "peername":
             return ("192.0.2.1", 1)
         if name == "sockname":
@@ -169,6 +175,34 @@ class FakeTransport(asyncio.Transport):
         return len(self.buffer)
 
 
+class _FakeSock:
+    """what `writer.get_extra_info("socket")` hands out: records socket options; SO_LINGER(on, 0) changes how close() behaves"""
+
+    def __init__(self, conn: Conn) -> None:
+        self.conn = conn
+
+    def setsockopt(self, level: int, opt: int, value: Any) -> None:
+        import socket
+        import struct
+
+        self.conn.sockopts.append((level, opt, bytes(value) if isinstance(value, bytes | bytearray) else value))
+        if level == socket.SOL_SOCKET and opt == socket.SO_LINGER and isinstance(value, bytes | bytearray) and len(value) >= 8:
+            onoff, secs = struct.unpack("ii", bytes(value)[:8])
+            self.conn.abortive_close = bool(onoff) and secs == 0
+
+    def getsockopt(self, *a: Any) -> int:
+        return 0
+
+    def getsockname(self) -> Any:
+        return ("192.0.2.2", 2)
+
+    def getpeername(self) -> Any:
+        return ("192.0.2.1", 1)
+
+    def fileno(self) -> int:
+        return -1
+
+
 class Conn:
     """One fake connection; also an explorer actor."""
 
@@ -188,6 +222,8 @@ class Conn:
         self.client_closed_at: float | None = None
         self.dropped_writes = 0
         self.aborted_bytes = 0
+        self.sockopts: list[tuple[int, int, Any]] = []
+        self.abortive_close = False
         self.tx_room: int | None = None  # None: the peer takes every write at once; n: bytes the kernel still accepts (slow reader)
         self.tx_chunk = 4096  # bytes a slow peer reads per environment step
         self.reset_on_write_after_eof = False
